@@ -201,6 +201,10 @@ func (hc *Honeytrap) findService(conn net.Conn) (*ServiceMap, net.Conn, error) {
 		ch, ok := service.Service.(services.CanHandlerer)
 		if !ok {
 			// Service does not implement CanHandle, assume it can handle the connection
+			if !peekUninitialized {
+				// bytes were already consumed for detection: hand them on as well
+				return service, pConn, nil
+			}
 			return service, conn, nil
 		}
 		// Service implements CanHandle, initialize it if needed and run the checks
